@@ -96,14 +96,34 @@ class Rec(contextlib.AbstractContextManager):
 
 
 # ----------------------------------------------------------------------------- scenarios
+def apply_layout(a, layout):
+    """the same values in another memory layout (logical shape and contents unchanged)"""
+    if layout in (None, "C"):
+        return np.ascontiguousarray(a)
+    if layout == "F":
+        return np.asfortranarray(a)
+    if layout == "transposed" and a.ndim >= 3:
+        perm = [1, 0] + list(range(2, a.ndim))
+        return np.ascontiguousarray(a.transpose(perm)).transpose(perm)      # a view with swapped leading strides
+    if layout == "strided0" and a.ndim >= 2:
+        big = np.zeros((2 * a.shape[0],) + a.shape[1:], dtype=a.dtype)
+        big[::2] = a
+        return big[::2]
+    if layout in ("strided", "transposed", "strided0"):
+        big = np.zeros(a.shape[:-1] + (2 * a.shape[-1],), dtype=a.dtype)
+        big[..., ::2] = a
+        return big[..., ::2]
+    return np.ascontiguousarray(a)
+
+
 def sc_data(sc):
-    """the input array of a scenario"""
+    """the input array of a scenario (in the memory layout the scenario asks for)"""
     v = [float.fromhex(h) for h in sc["data"]]
     if sc["cplx"]:
         a = np.array(v[0::2]) + 1j * np.array(v[1::2])
     else:
         a = np.array(v, dtype=float)
-    return a.reshape(sc["shape"])
+    return apply_layout(a.reshape(sc["shape"]), sc.get("layout"))
 
 
 def set_data(sc, arr):
@@ -124,10 +144,14 @@ def fs_of(sc):
     return float.fromhex(sc["Fs"]) if sc.get("Fs") is not None else 2 * np.pi
 
 
-def run_scenario(sc, data=None):
-    """run the implementation; returns dict(out=…, rec=Rec, err=None|exception)"""
+def run_scenario(sc, data=None, with_history=False):
+    """run the implementation; returns dict(out=…, rec=Rec, err=None|exception).  `with_history`: first make
+    the calls listed under sc["history"] (same process), as a replay from a fresh process needs."""
     import nitime.algorithms.spectral as sp
-    x = sc_data(sc) if data is None else np.array(data)
+    if with_history:
+        for h in sc.get("history") or []:
+            run_scenario(h)
+    x = sc_data(sc) if data is None else apply_layout(np.array(data), sc.get("layout"))
     est = sc["est"]
     kw = {}
     if sc.get("Fs") is not None:
@@ -278,10 +302,28 @@ def mt_parts(sc, res):
     rec = res["rec"]
     x = res["x"]
     n = x.shape[-1]
-    if len(rec.dpss) != 1:
-        return None
-    dargs, dkw, (dpss, eig) = rec.dpss[0]
-    if dkw or len(dargs) != 3:
+    recorded = True
+    if len(rec.dpss) == 1 and not rec.dpss[0][1] and len(rec.dpss[0][0]) == 3:
+        dargs, dkw, (dpss, eig) = rec.dpss[0]
+    elif len(rec.dpss) == 0:
+        # the expected library call was not made during this call (e.g. a cache inside nitime): the harness
+        # makes it itself, with the arguments the model predicts, so every call is still judged against
+        # independently computed tapers
+        import nitime.utils as ut
+        fs = fs_of(sc)
+        if sc.get("BW") is not None:
+            nw = float(np.round(float.fromhex(sc["BW"]) * n / fs)) / 2.0
+        elif sc.get("NW") is not None:
+            nw = float.fromhex(sc["NW"])
+        else:
+            nw = 4
+        dargs = (n, nw, int(2 * nw))
+        try:
+            dpss, eig = ut.dpss_windows(*dargs)
+        except Exception:  # noqa
+            return None
+        recorded = False
+    else:
         return None
     call = None
     for inp, fn, axis, out in rec.fft:
@@ -297,11 +339,11 @@ def mt_parts(sc, res):
         if len(rec.adapt) < M:
             return None
         w = [np.asarray(rec.adapt[i][0], dtype=float) for i in range(M)]       # (K, L) each
-        w = [wi if wi.ndim == 2 else np.asarray(wi).reshape(K, -1) for wi in w]
+        w = [wi if wi.ndim == 2 else np.atleast_2d(wi) for wi in w]
     else:
         w = [np.sqrt(eig[keep]).reshape(K, 1) for _ in range(M)]
     return dict(dargs=dargs, dpss=dpss, eig=eig, inp=inp, fft_n=(n if fn is None else int(fn)), y=y, K=K, M=M, w=w,
-                keep=keep)
+                keep=keep, dpss_recorded=recorded)
 
 
 def mt_fields(sc, res, p):
@@ -470,8 +512,12 @@ def gen_common(rng, nmax, allow_lead=True, min_ch=1, max_ch=5):
     return n, lead, cplx, fs, nfft, sides
 
 
-def gen_scenario(rng, est, nmax=64, min_ch=1, max_ch=5):
-    n, lead, cplx, fs, nfft, sides = gen_common(rng, nmax, min_ch=min_ch, max_ch=max_ch)
+LAYOUTS = ["F", "F", "transposed", "strided", "strided0"]
+
+
+def gen_scenario(rng, est, nmax=64, min_ch=1, max_ch=5, lead=None, layout=None):
+    n, lead0, cplx, fs, nfft, sides = gen_common(rng, nmax, min_ch=min_ch, max_ch=max_ch)
+    lead = lead0 if lead is None else list(lead)
     if est in ("multi_taper_psd", "multi_taper_csd"):
         if nfft is not None:
             nfft = rng.choice([n, n + rng.randint(1, 9), n - 2])      # NFFT < N is reset to N by the code
@@ -479,6 +525,10 @@ def gen_scenario(rng, est, nmax=64, min_ch=1, max_ch=5):
         lead = [1]
     sc = {"est": est, "Fs": None if fs is None else float(fs).hex(), "NFFT": nfft, "sides": sides}
     set_data(sc, gen_signal(rng, lead, n, cplx))
+    if layout is None and lead and rng.random() < 0.3:
+        layout = rng.choice(LAYOUTS)
+    if layout not in (None, "C"):
+        sc["layout"] = layout           # same values, Fortran-ordered / strided / transposed-view memory
     if est in ("periodogram", "periodogram_csd"):
         sc["normalize"] = rng.random() < 0.85
         sc["use_sk"] = rng.random() < 0.15
@@ -498,6 +548,55 @@ def gen_scenario(rng, est, nmax=64, min_ch=1, max_ch=5):
         if est == "multi_taper_psd":
             sc["jackknife"] = rng.random() < 0.15
     return sc
+
+
+def gen_siblings(rng, est, nmax=24, max_ch=3, opt=None):
+    """an option-sibling sequence: the same function on the same signal, called two times with exactly one
+    option changed (either order), then the first call again (which must return the identical result).
+    Every call is judged on its own; each records the calls made before it under "history"."""
+    a = gen_scenario(rng, est, nmax=nmax, max_ch=max_ch, layout="C")
+    a["use_sk"] = False
+    n = a["shape"][-1]
+    fsv = fs_of(a)
+    mt = est in ("multi_taper_psd", "multi_taper_csd")
+    opts = ["sides", "NFFT", "Fs"] + (["low_bias", "low_bias", "low_bias", "adaptive", "BWvsNW"] if mt else ["normalize"])
+    if est == "multi_taper_psd":
+        opts.append("jackknife")
+    opt = opt or rng.choice(opts)
+    b = dict(a)
+    if opt == "sides":
+        b["sides"] = rng.choice([v for v in ("default", "onesided", "twosided") if v != a.get("sides", "default")])
+    elif opt == "NFFT":
+        b["NFFT"] = (n + rng.randint(1, 7)) if a.get("NFFT") in (None, n) else None
+    elif opt == "Fs":
+        b["Fs"] = float(rng.choice([v for v in (1.0, 2.0, 3.0, 250.0) if v != fsv])).hex()
+        if a.get("BW") is not None:                 # keep the same normalised bandwidth
+            b["BW"] = float(float.fromhex(a["BW"]) * fs_of(b) / fsv).hex()
+    elif opt == "low_bias":
+        b["low_bias"] = not a.get("low_bias", True)
+    elif opt == "adaptive":
+        b["adaptive"] = not a.get("adaptive", False)
+    elif opt == "jackknife":
+        b["jackknife"] = not a.get("jackknife", False)
+    elif opt == "normalize":
+        b["normalize"] = not a.get("normalize", True)
+    elif opt == "BWvsNW":
+        if a.get("BW") is not None:
+            nw = float(np.round(float.fromhex(a["BW"]) * n / fsv)) / 2.0
+            b.pop("BW")
+            b["NW"] = float(nw).hex()
+        else:
+            nw = float.fromhex(a["NW"]) if a.get("NW") is not None else 4.0
+            b.pop("NW", None)
+            b["BW"] = float((2 * nw + rng.uniform(-0.2, 0.2)) * fsv / n).hex()
+    if rng.random() < 0.5:
+        a, b = b, a
+    c = dict(a)
+    a["sibling"], b["sibling"], c["sibling"] = "%s/first" % opt, "%s/second" % opt, "%s/first-again" % opt
+    b["history"] = [dict(a)]
+    c["history"] = [dict(a), {k: v for k, v in b.items() if k != "history"}]
+    c["same_as_first"] = True
+    return [a, b, c]
 
 
 def gen_welch(rng, nmax=256):
@@ -531,7 +630,8 @@ def klass(sc):
         est, "cplx" if sc["cplx"] else "real", "odd" if n % 2 else "even",
         "nfft-none" if nf is None else ("nfft=n" if nf == n else ("nfft>n" if nf > n else "nfft<n")),
         sc.get("sides", "default"), "lead%d" % (len(sc["shape"]) - 1),
-        "/adaptive" if sc.get("adaptive") else "")
+        ("/adaptive" if sc.get("adaptive") else "") + ("/" + sc["layout"] if sc.get("layout") else "")
+        + ("/sibling:" + sc["sibling"] if sc.get("sibling") else ""))
 
 
 def make_case(sc):
@@ -547,6 +647,9 @@ def make_case(sc):
     c.res = res
     c.sc = sc
     c.in_k = coq is not None
+    c.skip_k = False
+    if sc.get("same_as_first") and coq is not None:
+        c.in_k, c.skip_k = False, True          # identical to the first sibling (checked by the oracle): not compiled again
     c.cost = est_cost(sc, res)
     return c
 
@@ -704,11 +807,70 @@ def run_k(ctx, cases, budget=18.0):
                 bad.add(id(job[5][j]))
     for c in cases:
         ctx.count_case(c)
-    lost = [c for c in cases if not c.in_k and c.res["err"] is None]
+    lost = [c for c in cases if not c.in_k and c.res["err"] is None and not getattr(c, "skip_k", False)]
     ctx.obligation("K", "emit: every successful call is expressible as a K case (%d are not)" % len(lost), not lost,
                    "calls whose library-oracle recording does not have the expected form (no fft / dpss_windows / "
                    "mlab.csd call of the expected shape was seen): " + "; ".join(c.klass for c in lost[:10]))
     return bad
+
+
+def same_result(r1, r2):
+    if (r1["err"] is None) != (r2["err"] is None):
+        return False
+    if r1["err"] is not None:
+        return type(r1["err"]) is type(r2["err"])
+    return r1["out"].shape == r2["out"].shape and np.array_equal(r1["out"], r2["out"], equal_nan=True)
+
+
+def purity_fails(pid, cases, sample):
+    """results must not depend on the call history: (1) the third member of every option-sibling sequence
+    repeats the first call and must return the identical result; (2) a sample of the earliest calls is made
+    again at the end of the run"""
+    fails = []
+    by_first = {}
+    for c in cases:
+        sib = c.sc.get("sibling", "")
+        if sib.endswith("/first"):
+            by_first[id(c.sc.get("data"))] = c
+    prev = None
+    for c in cases:
+        if c.sc.get("same_as_first") and prev is not None:
+            if not same_result(prev.res, c.res):
+                f = Fail("%s/%s/history-dependence" % (pid, c.sc["est"]),
+                         "the same call returns another result after a call with one option changed (%s)" % c.sc["sibling"],
+                         None, "identical result")
+                fails.append((f, c))
+        if c.sc.get("sibling", "").endswith("/first"):
+            prev = c
+    plain = [c for c in cases if not c.sc.get("sibling") and c.res["err"] is None][:sample]
+    for c in plain:
+        r2 = run_scenario(c.sc)
+        if not same_result(c.res, r2):
+            i0 = cases.index(c)
+            between = [dict(o.sc) for o in cases[i0 + 1:] if o.sc["est"] == c.sc["est"]
+                       and o.sc["shape"][-1] == c.sc["shape"][-1]][:12]
+            sc = dict(c.sc)
+            sc["history"] = [dict(c.sc)] + between
+            cc = Case("", {"scenario": sc, "error": None}, c.klass, True)
+            f = Fail("%s/%s/history-dependence" % (pid, c.sc["est"]),
+                     "the same call made again at the end of the run returns another result", None, "identical result")
+            fails.append((f, cc))
+    return fails
+
+
+def with_run_history(cases, i):
+    """replay description of case i that also lists the earlier calls of this run on the same estimator
+    family and signal length (a failure that depends on the call history then replays from a fresh process)"""
+    c = cases[i]
+    if c.sc.get("history"):
+        return c
+    fam = c.sc["est"].split("_")[0]
+    hist = [{k: v for k, v in o.sc.items() if k != "history"} for o in cases[:i]
+            if o.sc["est"].split("_")[0] == fam and o.sc["shape"][-1] == c.sc["shape"][-1]][-10:]
+    if not hist:
+        return c
+    cc = Case(c.coq, {"scenario": dict(c.sc, history=hist), "error": c.replay.get("error")}, c.klass, c.nontrivial)
+    return cc
 
 
 def err_in_dpss(err):
